@@ -26,7 +26,10 @@ RULE = ("histories = 1-2 batch_run calls (sometimes the very same call twice) on
         "and 0-3 times inside every step with model-level and agent-level changes between the collects of one step (every agent "
         "removed / one created / the first removed / every agent removed at the final step), with/without agent reporters, with "
         "agent churn; three streams per run: 260 random cases, a 120-case slice of the targeted sweep (collect patterns x stop x "
-        "max_steps x period; churn between collects; all pairs of parameter shapes), 40 cases of churn between collects; 4 (quick) / "
+        "max_steps x period; churn between collects; all pairs of parameter shapes), 40 cases of churn between collects, 40 cases of "
+        "explicit collection patterns (gaps and duplicates), 6 SCALE cases (max_steps 255/256/257/258/300/512/1000 with periods 1, 2, 7, 50, "
+        "64, 100, 128, 256, 257, 300, -1 and early stops at 256..512 on tiny models; designs of 200-600 runs; scalar parameters as numpy "
+        "scalars and bools); 4 (quick) / "
         "40 (thorough) calls with number_processes 2-3 run in a helper process and compared with the serial call and row by row "
         "with their run; the multiset of rows is observed; non-trivial = at least 2 rows; distinct = by SHA1")
 TRUSTED_BASE = [
@@ -103,7 +106,7 @@ def _gen_op(rng, objects, nproc=1):
     size = 1
     for n in names:
         p = _gen_param(rng, n, objects)
-        k = 1 if p[1] in ("scalar", "str", "np0") else (len(range(*p[2])) if p[1] == "range" else len(p[2]))
+        k = 1 if p[1] in ("scalar", "str", "np0", "npscalar", "bool") else (len(range(*p[2])) if p[1] == "range" else len(p[2]))
         if size * max(k, 1) > 12:
             p = [n, "scalar", 1] if n not in ("tag", "obj") else None
         else:
@@ -134,6 +137,10 @@ def gen_cases(rng, tier):
     # the final step before the model stops), with agent reporters on
     # arbitrary collection histories: gaps (steps without a collect) and duplicates (2-3 collects in one step, also at
     # construction and at the last step) mixed, so that length / first / last of the history coincide in every way
+    # SCALE (harness/SCALE_NOTE.md): runs that cross 255 / 256 / 257 / 300 / 1000 steps (CPython caches ints up to 256), with
+    # periods 1, dividing, not dividing, -1 and early stops beyond 256; tiny models, one iteration; and designs with hundreds
+    # of combinations x iterations; scalar parameters as numpy scalars / bools
+    cases += _scale_cases(rng, 6 if tier == "quick" else 60)
     for j in range(40 if tier == "quick" else 400):
         L = rng.randint(3, 6)
         params = [["pat", "list", [_gen_pattern(rng, L) for _ in range(rng.randint(3, 6))]], ["ar", "scalar", rng.choice([1, 1, 0])],
@@ -156,6 +163,32 @@ def gen_cases(rng, tier):
         rng.shuffle(params)
         cases.append({"objects": [], "ops": [["batch", params, 1, rng.choice([1, 2, 3, 4]), rng.choice([-1, 1, 1, 2]), 1, False]]})
     return cases
+
+
+def _scale_cases(rng, count, big=1):
+    out = []
+    for j in range(count):
+        if j % 6 == 5:      # a wide design: hundreds of runs of one step each
+            params = [["n", "range", [0, rng.choice([3, 4]), 1]], ["k", rng.choice(["range", "np1"]), None], ["tag", "list", None],
+                      ["ar", rng.choice(["bool", "npscalar"]), 1], ["ic", "bool", rng.choice([0, 1])]]
+            params[1][2] = [0, rng.choice([9, 17, 33]), 1] if params[1][1] == "range" else list(range(rng.choice([9, 17, 33])))
+            objects = ["a", "bc", "relu", "x", ""]
+            params[2][2] = [1000 + t for t in range(rng.choice([3, 5]))]
+            out.append({"objects": objects, "ops": [["batch", params, rng.choice([2, 3]), 1, rng.choice([1, -1]), 1, False]]})
+            continue
+        max_steps = rng.choice([255, 256, 257, 258, 300, 300, 512, 1000 if big and j % 6 == 0 else 320])
+        period = rng.choice([1, 2, 50, 64, 100, 128, 256, 257, 7, 300, -1] if max_steps <= 320 else [50, 64, 100, 128, 250, 256, 7, -1])
+        params = [["n", rng.choice(["scalar", "npscalar"]), rng.choice([0, 1])], ["ar", rng.choice(["scalar", "bool"]), rng.choice([0, 1])],
+                  ["ic", "scalar", rng.choice([0, 1, 2])]]
+        if rng.random() < 0.5:
+            params.append(["stop", rng.choice(["scalar", "npscalar", "list"]), None])
+            v = rng.choice([256, 257, 258, 300, 400, 512, max_steps - 1])
+            params[-1][2] = [v, 3] if params[-1][1] == "list" else v
+        if rng.random() < 0.2:
+            params.append(["sc", "scalar", 2])
+        rng.shuffle(params)
+        out.append({"objects": [], "ops": [["batch", params, 1, max_steps, period, 1, False]]})
+    return out
 
 
 def _gen_pattern(rng, L, most=8):
@@ -198,6 +231,12 @@ def enumerate_cases(tier, broken=False):
     for ic, sc, ar in itertools.product([0, 1, 2], [0, 1, 2], [0, 1]):
         yield {"objects": [], "ops": [["batch", [["mr", "scalar", 0], ["ic", "scalar", ic], ["sc", "scalar", sc], ["ar", "scalar", ar], ["n", "list", [0, 2]]],
                                        2, max_steps, period, 1] for max_steps, period in ((0, -1), (3, 1), (3, -1), (4, 2))]}
+    # SCALE: many more long runs / wide designs when something broke or in thorough (implementation + oracle only)
+    if broken or tier == "thorough":
+        import random as _r
+
+        for c in _scale_cases(_r.Random(99), 120, big=0):
+            yield c
     # designs: all shapes of two parameters
     shapes = [["scalar", 1], ["list", [0, 1]], ["tuple", [2]], ["range", [0, 3, 1]], ["range", [1, 1, 1]], ["list", []], ["list", [1, 1]],
               ["np0", 2], ["np1", [0, 1]], ["np1", []]]
@@ -228,6 +267,11 @@ def _py_params(params, objects):
             out[name] = tuple(_decode(c, objects) for c in payload)
         elif kind == "range":
             out[name] = range(*payload)
+        elif kind == "npscalar":
+            import numpy as np
+            out[name] = np.int64(payload)            # a numpy scalar instead of a Python int: not iterable -> a single value
+        elif kind == "bool":
+            out[name] = bool(payload)                # a bool where an int is accepted
         elif kind == "np0":
             import numpy as np
             out[name] = np.array(payload)            # 0-d array: iterating it raises TypeError -> a single value
@@ -242,7 +286,7 @@ def _py_params(params, objects):
 def _values(p, objects):
     """the statement's reading of one parameter: the list of values it stands for (None = rejected)"""
     name, kind, payload = p
-    if kind in ("scalar", "str", "np0"):
+    if kind in ("scalar", "str", "np0", "npscalar", "bool"):
         return [payload]
     if kind in ("list", "tuple"):
         return list(payload) if payload else None
@@ -294,6 +338,8 @@ def _code(v, objects, name):
     v = _norm(v)
     if v is None:
         return -1
+    if isinstance(v, bool) and name not in ("tag", "obj"):
+        return int(v)              # a bool given for a parameter the model reads as an int
     if isinstance(v, int) and not isinstance(v, bool) and name not in ("tag", "obj"):
         return v
     for i, o in enumerate(objects):
@@ -409,7 +455,9 @@ def run_impl(case):
             fail("C13/batch_run/mutated-parameters", i, f"batch_run changed the caller's parameters dictionary: {res['mutated']}")
         enc = [enc_row(r, objects) for r in rows]
         # ---- the statement
-        combos = [dict(zip(names, [_decode(c, objects) for c in combo])) for combo in itertools.product(*vals)]
+        kinds = [p[1] for p in params]
+        combos = [dict(zip(names, [bool(c) if kd == "bool" else _decode(c, objects) for c, kd in zip(combo, kinds)]))
+                  for combo in itertools.product(*vals)]
         design = [(it, kw) for it in range(iterations) for kw in combos]
         got_design = [{k: _norm(v) for k, v in inst.init_kwargs.items()} for inst in insts]
         if sorted(map(repr, got_design)) != sorted(repr(kw) for _, kw in design):
@@ -438,11 +486,11 @@ def run_impl(case):
                     specific = True
                     fail("C13/batch_run/row-parameters", i, f"row {r} of run {run_id} does not repeat its parameters {kw} / iteration {it}")
                 lab = r.get("Step")
-                if ("Steps" in r and r["Steps"] != lab) or ("sv" in r and r["sv"] // 1000 != lab):
+                if ("Steps" in r and r["Steps"] != lab) or ("sv" in r and r["sv"] - r.get("val", 0) != 1000 * lab):
                     specific = True
                     fail("C13/batch_run/row-mixes-collections", i,
                          f"run {run_id} {kw} max_steps={max_steps} period={period}: row {r} is labelled Step {lab} but its model-level "
-                         f"value was collected at step {r.get('Steps')} and its agent-level value at step {r['sv'] // 1000 if 'sv' in r else None}")
+                         f"value was collected at step {r.get('Steps')} and its agent-level value at step {(r['sv'] - r.get('val', 0)) // 1000 if 'sv' in r else None}")
             log = inst.log if inst is not None else hand.log
             for r in mine:
                 # the row must be ONE collection of the model: same step, same model-level values, and its agent in it
@@ -510,7 +558,7 @@ def run_impl(case):
 # ------------------------------------------------------------------ model side
 def _c_pspec(p):
     name, kind, payload = p
-    if kind in ("scalar", "str", "np0"):
+    if kind in ("scalar", "str", "np0", "npscalar", "bool"):
         return f"PSingle {L.z(payload)}"
     if kind in ("list", "tuple"):
         return f"PMany {L.zlist(payload)}" if payload else "PEmptySeq"
